@@ -272,12 +272,11 @@ def validate_trace(scratch, module, cfg, trace_path, trace_name="trace.ndjson", 
     if res["rc"] != 0 and "REJECTED" not in out:
         tail = "\n".join([l for l in out.splitlines() if not l.startswith(("Parsing", "Semantic", "Linting"))][-40:])
         raise Broken("trace validation failed to run (%s rc=%s):\n%s" % (module, res["rc"], tail))
-    m = re.search(r'"CONSUMED", (\d+)', out)
+    m = re.search(r'"CONSUMED",\s*(\d+)', out)
     consumed = int(m.group(1)) if m else -1
-    rejected = []
-    m = re.search(r'"REJECTED", \{([^}]*)\}', out)
-    if m:
-        rejected = [int(x) for x in m.group(1).replace(" ", "").split(",") if x]
-    elif '"REJECTED"' not in out:
-        raise Broken("trace spec %s printed no verdict" % module)
+    # TLC pretty-prints a long set over several lines:  << "REJECTED",\n  {1, 2, ...} >>
+    m = re.search(r'"REJECTED",\s*\{([^}]*)\}', out, re.S)
+    if not m:
+        raise Broken("trace spec %s printed no parsable verdict" % module)
+    rejected = [int(x) for x in re.findall(r"\d+", m.group(1))]
     return consumed, rejected, res
